@@ -278,6 +278,7 @@ class Check:
                 self.broken.append(f"theorem {t} uses non-standard axioms {ax}")
             else:
                 self.discharged += 1
+        self._audit_translated()
         if self.thorough and not self.broken:
             try:
                 p = subprocess.run(["lake", "env", "leanchecker", self.module], cwd=LEAN,
@@ -287,6 +288,42 @@ class Check:
                     self.broken.append("leanchecker rejected " + self.module + ": " + (p.stdout + p.stderr)[-500:])
             except FileNotFoundError:
                 self.extra["leanchecker_rc"] = "missing"
+
+    def _audit_translated(self):
+        """Second tie (DESIGN §3.3): definitions regenerated from /repo's Python AST on every run
+        by harness/py2lean_ext.py, with theorems that link them to the hand model.  Registered per
+        property in harness/translated_registry.json:
+          {"C20": {"module": "SleapVerif.Props.TranslatedC20", "theorems": [...],
+                   "build_targets": ["SleapVerif.Gen.TranslatedC20"]}}"""
+        reg_file = VERIF / "harness" / "translated_registry.json"
+        if not reg_file.exists():
+            return
+        reg = json.loads(reg_file.read_text()).get(self.pid)
+        if not reg:
+            return
+        self.obligations += len(reg["theorems"])
+        self.extra["translated_theorems"] = reg["theorems"]
+        try:
+            import py2lean_ext
+
+            note = py2lean_ext.sync(REPO, LEAN, self.pid)  # regenerates Gen file(s) for this property
+            self.extra["translator"] = note
+        except Exception as e:  # source left the supported fragment, file missing, …
+            self.broken.append(f"py2lean_ext could not translate the {self.pid} targets from {REPO}: {type(e).__name__}: {e}")
+            return
+        ok, log = lake_build(list(reg.get("build_targets", [])) + [reg["module"]])
+        if not ok:
+            self.broken.append(f"translated definitions no longer satisfy their theorems ({reg['module']}): " + log[-1200:])
+            return
+        res = axiom_audit(reg["module"], reg["theorems"])
+        self.extra.setdefault("axioms", {}).update(res)
+        for t, ax in res.items():
+            if isinstance(ax, str):
+                self.broken.append(f"theorem {t} does not check: {ax[-300:]}")
+            elif not set(ax) <= STD_AXIOMS:
+                self.broken.append(f"theorem {t} uses non-standard axioms {ax}")
+            else:
+                self.discharged += 1
 
     # ---- counting
     def case(self, key, sample=None, tags=()):
